@@ -2,6 +2,7 @@ import GcArena.Proofs.Quiet
 import GcArena.Proofs.Protocol
 import GcArena.Proofs.GrayMono
 import GcArena.Proofs.RunBridge
+import GcArena.Proofs.ProtRun
 /-!
 # C08 — Collection-phase protocol of the Arena API
 
@@ -454,6 +455,69 @@ theorem observable_phase_order {root : List Slot} (ms1 : List Micro) (m : Micro)
     (hinv : CInv c root []) (h1 : c.micros root ms1 = some c1) (h2 : c1.micro root m = some c2) :
     ObsStep (obs c1) (obs c2) :=
   micro_observable_order (micros_inv ms1 hinv h1) m h2
+
+/-! ### The order of the observable phase over whole histories -/
+
+/-- Every micro-step of the sequence `ms`, taken from `c`, moves the observable phase by one
+    `ObsStep`. -/
+def MicrosObsOrdered (c : Ctx) (root : List Slot) (ms : List Micro) : Prop :=
+  ∀ (ms1 ms2 : List Micro) (m : Micro) (c1 c2 : Ctx), ms = ms1 ++ m :: ms2 →
+    c.micros root ms1 = some c1 → c1.micro root m = some c2 → ObsStep (obs c1) (obs c2)
+
+/-- A mutator operation leaves the observable phase alone or takes Marked back to Marking
+    (`callbacks_move_phase_only_marked_to_marking`, in terms of `obs`). -/
+theorem callbacks_obs {a : Arena} (h : Inv a) (op : Op) (hop : op.isMutator = true) :
+    obs (a.step op).1.ctx = obs a.ctx ∨ (obs a.ctx = .marked ∧ obs (a.step op).1.ctx = .marking) := by
+  have hp := callbacks_keep_phase h op hop
+  unfold obs
+  rw [hp]
+  cases hph : a.ctx.phase with
+  | mark =>
+    cases hg : a.ctx.grayRemaining with
+    | true => left; rw [callbacks_never_finish_marking op hop hg]
+    | false =>
+      cases hg' : (a.step op).1.ctx.grayRemaining with
+      | true => right; exact ⟨rfl, rfl⟩
+      | false => left; rfl
+  | sweep => left; rfl
+  | sleep => left; rfl
+  | drop => left; rfl
+
+/-- **Order of the observable phase, over runs of the API.**  In every state of every history
+    `(Arena.new n).run ops` — any interleaving of callbacks and collection calls — the next
+    operation `op`, whatever it is,
+    * is a mutator operation (anything a callback can do, entering / leaving one included): the
+      observable phase stays or goes Marked → Marking; or
+    * is a collection call (any method, continuation, debt, pacing, fault position, self- or
+      oracle-driven) or a rejected drop: the context moves along a sequence `ms` of collector
+      micro-steps *each of which* leaves the observable phase or moves it one arrow along
+      `Sleeping → Marking → Marked → Sweeping → Sleeping`; or
+    * drops the arena.
+    So through every intermediate state of every history the phase moves only as the property
+    says. -/
+theorem observable_phase_order_run (n : Nat) (ops : List Op) (op : Op) :
+    let a := (Arena.new n).run ops
+    a.alive = true →
+    (op.isMutator = true ∧
+      (obs (a.step op).1.ctx = obs a.ctx ∨ (obs a.ctx = .marked ∧ obs (a.step op).1.ctx = .marking))) ∨
+    (∃ ms, a.ctx.micros a.root ms = some (a.step op).1.ctx ∧ MicrosObsOrdered a.ctx a.root ms) ∨
+    (a.step op).1.alive = false := by
+  intro a halive
+  have h : Inv a := inv_run n ops halive
+  cases hal : (a.step op).1.alive with
+  | false => exact Or.inr (Or.inr rfl)
+  | true =>
+    rcases step_kind h op hal with hop | rel
+    · exact Or.inl ⟨hop, callbacks_obs h op hop⟩
+    · right; left
+      obtain ⟨ms, hms, hnil⟩ := rel.reach
+      refine ⟨ms, hms, ?_⟩
+      intro ms1 ms2 m c1 c2 hsplit h1 h2
+      by_cases hcb : a.cb = none
+      · exact observable_phase_order ms1 m (h.cinv0 hcb) h1 h2
+      · have := hnil hcb
+        rw [this] at hsplit
+        cases ms1 <;> cases hsplit
 
 /-! ### The same facts about the API operations -/
 
